@@ -59,15 +59,15 @@ package state
 //@ spec func c08Stat(st: *StateDB) *ValidatorsStat = unbox(st.validatorsStat.v, *ValidatorsStat)
 //@ spec func c08StatLoaded(st: *StateDB) bool = hastype(st.validatorsStat.v, *ValidatorsStat) && c08Stat(st) != nil
 
-//@ func (*StateDB).getValidatorsStat props C08
+//@ func (*StateDB).getValidatorsStat props C08, C10
 //@ panics none
-//@ requires st != nil && c08StatLoaded(st)
+//@ requires [nonnil] st != nil && c08StatLoaded(st)
 //@ pure
 //@ ensures [cached] result0 == c08Stat(st) && result1 == nil
 
 // Under the "cache loaded" invariant the reload path of getValidatorsStat is dead: the call-site obligation
 // `…#call[(*StateDB).loadValidatorsStat#1].requires[stat-cache-loaded]` proves it (the contract is never used otherwise).
-//@ func (*StateDB).loadValidatorsStat props C08
+//@ func (*StateDB).loadValidatorsStat props C08, C10
 //@ nobody
 //@ requires [stat-cache-loaded] false
 //@ pure
@@ -132,7 +132,10 @@ package state
 
 // A record's amounts exist and are not statistics counters.
 //@ spec func c08SepBig(p: *big.Int) bool = p != nil && (c08Slot(p) == 0 || p >= c08Mark())
-//@ spec func c08ValSep(val: *Validator) bool = c08SepBig(val.Stake) && c08SepBig(val.Token)
+//@ spec func c08ValSep(val: *Validator) bool = c08SepBig(val.Stake) && c08SepBig(val.Token) && c08SepBig(val.SelfStake) && c08SepBig(val.SelfToken)
+// Frame of the statistics updates on big integers: every big integer that is not a statistics counter keeps its value.
+//@ spec func c08BigsKept() bool = forall q: *big.Int :: { big(q) } c08SepBig(q) ==> big(q) == old(big(q))
+//@ spec func c08Amounts(val: *Validator) C08Tot = C08Tot{big(val.Stake), big(val.Token), 0, big(val.SelfStake), big(val.SelfToken), 0}
 
 //@ func (*StateDB).incrValidatorsStat props C08
 //@ panics none
@@ -146,12 +149,8 @@ package state
 //@ let r2 = c08R(c08Stat(st), 2)
 //@ let r3 = c08R(c08Stat(st), 3)
 //@ modifies st.validatorsStatModified,
-//@     big(k0.onlineStake), big(k0.onlineToken), k0.onlineCount, big(k0.offlineStake), big(k0.offlineToken), k0.offlineCount,
-//@     big(k1.onlineStake), big(k1.onlineToken), k1.onlineCount, big(k1.offlineStake), big(k1.offlineToken), k1.offlineCount,
-//@     big(k2.onlineStake), big(k2.onlineToken), k2.onlineCount, big(k2.offlineStake), big(k2.offlineToken), k2.offlineCount,
-//@     big(r1.onlineStake), big(r1.onlineToken), r1.onlineCount, big(r1.offlineStake), big(r1.offlineToken), r1.offlineCount,
-//@     big(r2.onlineStake), big(r2.onlineToken), r2.onlineCount, big(r2.offlineStake), big(r2.offlineToken), r2.offlineCount,
-//@     big(r3.onlineStake), big(r3.onlineToken), r3.onlineCount, big(r3.offlineStake), big(r3.offlineToken), r3.offlineCount
+//@     all(big), k0.onlineCount, k0.offlineCount, k1.onlineCount, k1.offlineCount, k2.onlineCount, k2.offlineCount,
+//@     r1.onlineCount, r1.offlineCount, r2.onlineCount, r2.offlineCount, r3.onlineCount, r3.offlineCount
 //@ ensures [kind-all]      val != nil ==> c08Tot(k0) == c08Add(old(c08Tot(k0)), old(c08InKind(val, params.KindValidator)))
 //@ ensures [kind-chamber]  val != nil ==> c08Tot(k1) == c08Add(old(c08Tot(k1)), old(c08InKind(val, params.KindChamber)))
 //@ ensures [kind-house]    val != nil ==> c08Tot(k2) == c08Add(old(c08Tot(k2)), old(c08InKind(val, params.KindHouse)))
@@ -162,6 +161,7 @@ package state
 //@                                        c08Tot(r1) == old(c08Tot(r1)) && c08Tot(r2) == old(c08Tot(r2)) && c08Tot(r3) == old(c08Tot(r3))
 //@ ensures [val-unchanged] val != nil ==> big(val.Stake) == old(big(val.Stake)) && big(val.Token) == old(big(val.Token))
 //@ ensures [marked]        val != nil ==> st.validatorsStatModified
+//@ ensures [other-bigs-kept] c08BigsKept()
 
 // The buckets a record is counted in hold at least its contribution (true whenever statistics == sum of the records
 // and val is one of the records): then the subtraction is exact, i.e. the silent clamps and the counter wrap are unreachable.
@@ -184,12 +184,8 @@ package state
 //@ let r2 = c08R(c08Stat(st), 2)
 //@ let r3 = c08R(c08Stat(st), 3)
 //@ modifies st.validatorsStatModified,
-//@     big(k0.onlineStake), big(k0.onlineToken), k0.onlineCount, big(k0.offlineStake), big(k0.offlineToken), k0.offlineCount,
-//@     big(k1.onlineStake), big(k1.onlineToken), k1.onlineCount, big(k1.offlineStake), big(k1.offlineToken), k1.offlineCount,
-//@     big(k2.onlineStake), big(k2.onlineToken), k2.onlineCount, big(k2.offlineStake), big(k2.offlineToken), k2.offlineCount,
-//@     big(r1.onlineStake), big(r1.onlineToken), r1.onlineCount, big(r1.offlineStake), big(r1.offlineToken), r1.offlineCount,
-//@     big(r2.onlineStake), big(r2.onlineToken), r2.onlineCount, big(r2.offlineStake), big(r2.offlineToken), r2.offlineCount,
-//@     big(r3.onlineStake), big(r3.onlineToken), r3.onlineCount, big(r3.offlineStake), big(r3.offlineToken), r3.offlineCount
+//@     all(big), k0.onlineCount, k0.offlineCount, k1.onlineCount, k1.offlineCount, k2.onlineCount, k2.offlineCount,
+//@     r1.onlineCount, r1.offlineCount, r2.onlineCount, r2.offlineCount, r3.onlineCount, r3.offlineCount
 //@ ensures [kind-all]      val != nil ==> c08Tot(k0) == c08Sub(old(c08Tot(k0)), old(c08InKind(val, params.KindValidator)))
 //@ ensures [kind-chamber]  val != nil ==> c08Tot(k1) == c08Sub(old(c08Tot(k1)), old(c08InKind(val, params.KindChamber)))
 //@ ensures [kind-house]    val != nil ==> c08Tot(k2) == c08Sub(old(c08Tot(k2)), old(c08InKind(val, params.KindHouse)))
@@ -200,6 +196,7 @@ package state
 //@                                        c08Tot(r1) == old(c08Tot(r1)) && c08Tot(r2) == old(c08Tot(r2)) && c08Tot(r3) == old(c08Tot(r3))
 //@ ensures [val-unchanged] val != nil ==> big(val.Stake) == old(big(val.Stake)) && big(val.Token) == old(big(val.Token))
 //@ ensures [marked]        val != nil ==> st.validatorsStatModified
+//@ ensures [other-bigs-kept] c08BigsKept()
 
 // ---------------------------------------------------------------------------------------------------------------
 // StakeEqual decides whether two records contribute the same amounts to the same buckets (then the statistics need no update).
@@ -314,12 +311,8 @@ package state
 //@ modifies st.validatorsStatModified, newVal.consAddr, oldVal.consAddr,
 //@     st.validatorObjects, mapof(st.validatorObjects.dirty), st.validatorIndex.data, mapof(st.validatorIndex.data.dirty),
 //@     st.validatorJournal.entries, elems(st.validatorJournal.entries), mapof(st.validatorJournal.dirties),
-//@     big(k0.onlineStake), big(k0.onlineToken), k0.onlineCount, big(k0.offlineStake), big(k0.offlineToken), k0.offlineCount,
-//@     big(k1.onlineStake), big(k1.onlineToken), k1.onlineCount, big(k1.offlineStake), big(k1.offlineToken), k1.offlineCount,
-//@     big(k2.onlineStake), big(k2.onlineToken), k2.onlineCount, big(k2.offlineStake), big(k2.offlineToken), k2.offlineCount,
-//@     big(r1.onlineStake), big(r1.onlineToken), r1.onlineCount, big(r1.offlineStake), big(r1.offlineToken), r1.offlineCount,
-//@     big(r2.onlineStake), big(r2.onlineToken), r2.onlineCount, big(r2.offlineStake), big(r2.offlineToken), r2.offlineCount,
-//@     big(r3.onlineStake), big(r3.onlineToken), r3.onlineCount, big(r3.offlineStake), big(r3.offlineToken), r3.offlineCount
+//@     all(big), k0.onlineCount, k0.offlineCount, k1.onlineCount, k1.offlineCount, k2.onlineCount, k2.offlineCount,
+//@     r1.onlineCount, r1.offlineCount, r2.onlineCount, r2.offlineCount, r3.onlineCount, r3.offlineCount
 //@ ensures [accepts] result <==> (newVal != nil && oldVal != nil && c08AddrOf(newVal) == c08AddrOf(oldVal))
 //@ ensures [kind-all]      result ==> c08Tot(k0) == c08Add(c08Sub(old(c08Tot(k0)), old(c08InKind(oldVal, params.KindValidator))), old(c08InKind(newVal, params.KindValidator)))
 //@ ensures [kind-chamber]  result ==> c08Tot(k1) == c08Add(c08Sub(old(c08Tot(k1)), old(c08InKind(oldVal, params.KindChamber))), old(c08InKind(newVal, params.KindChamber)))
@@ -333,6 +326,8 @@ package state
 //@ ensures [stored]  result ==> c08HasObj(st, c08AddrOf(newVal)) && c08Obj(st, c08AddrOf(newVal)) == newVal
 //@ ensures [indexed] result ==> c08Indexed(st.validatorIndex, c08AddrOf(newVal))
 //@ ensures [journalled] result ==> len(st.validatorJournal.entries) == old(len(st.validatorJournal.entries)) + 1
+//@ ensures [cache-coherent] (newVal != nil ==> c08AddrCacheOK(newVal)) && (oldVal != nil ==> c08AddrCacheOK(oldVal))
+//@ ensures [other-bigs-kept] c08BigsKept()
 //@ ensures [wf] c08StateWF(st)
 
 // ---------------------------------------------------------------------------------------------------------------
@@ -382,12 +377,8 @@ package state
 //@ modifies st.validatorsStatModified, st.dbErr,
 //@     st.validatorObjects, mapof(st.validatorObjects.dirty), st.validatorIndex.data, mapof(st.validatorIndex.data.dirty),
 //@     st.validatorJournal.entries, elems(st.validatorJournal.entries), mapof(st.validatorJournal.dirties),
-//@     big(k0.onlineStake), big(k0.onlineToken), k0.onlineCount, big(k0.offlineStake), big(k0.offlineToken), k0.offlineCount,
-//@     big(k1.onlineStake), big(k1.onlineToken), k1.onlineCount, big(k1.offlineStake), big(k1.offlineToken), k1.offlineCount,
-//@     big(k2.onlineStake), big(k2.onlineToken), k2.onlineCount, big(k2.offlineStake), big(k2.offlineToken), k2.offlineCount,
-//@     big(r1.onlineStake), big(r1.onlineToken), r1.onlineCount, big(r1.offlineStake), big(r1.offlineToken), r1.offlineCount,
-//@     big(r2.onlineStake), big(r2.onlineToken), r2.onlineCount, big(r2.offlineStake), big(r2.offlineToken), r2.offlineCount,
-//@     big(r3.onlineStake), big(r3.onlineToken), r3.onlineCount, big(r3.offlineStake), big(r3.offlineToken), r3.offlineCount
+//@     all(big), k0.onlineCount, k0.offlineCount, k1.onlineCount, k1.offlineCount, k2.onlineCount, k2.offlineCount,
+//@     r1.onlineCount, r1.offlineCount, r2.onlineCount, r2.offlineCount, r3.onlineCount, r3.offlineCount
 //@ ensures [record] newVal != nil ==> fresh(newVal) && newVal.Role == role && newVal.Status == status && big(newVal.Token) == old(big(token)) && big(newVal.Stake) == old(big(stake)) &&
 //@     big(newVal.SelfToken) == old(big(token)) && big(newVal.SelfStake) == old(big(stake)) && len(newVal.Delegations) == 0 && !newVal.deleted
 //@ ensures [kind-all]      newVal != nil ==> c08Tot(k0) == c08Add(old(c08Tot(k0)), c08InKind(newVal, params.KindValidator))
@@ -401,6 +392,7 @@ package state
 //@ ensures [stored]  newVal != nil ==> c08HasObj(st, c08AddrOf(newVal)) && c08Obj(st, c08AddrOf(newVal)) == newVal
 //@ ensures [indexed] newVal != nil ==> c08Indexed(st.validatorIndex, c08AddrOf(newVal))
 //@ ensures [journalled] newVal != nil ==> len(st.validatorJournal.entries) == old(len(st.validatorJournal.entries)) + 1
+//@ ensures [other-bigs-kept] c08BigsKept()
 //@ ensures [wf] c08StateWF(st)
 
 // ---------------------------------------------------------------------------------------------------------------
@@ -426,12 +418,8 @@ package state
 //@ let r3 = c08R(c08Stat(st), 3)
 //@ modifies st.validatorsStatModified, val.deleted,
 //@     st.validatorJournal.entries, elems(st.validatorJournal.entries), mapof(st.validatorJournal.dirties),
-//@     big(k0.onlineStake), big(k0.onlineToken), k0.onlineCount, big(k0.offlineStake), big(k0.offlineToken), k0.offlineCount,
-//@     big(k1.onlineStake), big(k1.onlineToken), k1.onlineCount, big(k1.offlineStake), big(k1.offlineToken), k1.offlineCount,
-//@     big(k2.onlineStake), big(k2.onlineToken), k2.onlineCount, big(k2.offlineStake), big(k2.offlineToken), k2.offlineCount,
-//@     big(r1.onlineStake), big(r1.onlineToken), r1.onlineCount, big(r1.offlineStake), big(r1.offlineToken), r1.offlineCount,
-//@     big(r2.onlineStake), big(r2.onlineToken), r2.onlineCount, big(r2.offlineStake), big(r2.offlineToken), r2.offlineCount,
-//@     big(r3.onlineStake), big(r3.onlineToken), r3.onlineCount, big(r3.offlineStake), big(r3.offlineToken), r3.offlineCount
+//@     all(big), k0.onlineCount, k0.offlineCount, k1.onlineCount, k1.offlineCount, k2.onlineCount, k2.offlineCount,
+//@     r1.onlineCount, r1.offlineCount, r2.onlineCount, r2.offlineCount, r3.onlineCount, r3.offlineCount
 //@ ensures [found] result <==> old(c08HasObj(st, mainAddress))
 //@ ensures [gone]  !c08Exists(st, mainAddress)
 //@ ensures [kind-all]      result && !old(val.deleted) ==> c08Tot(k0) == c08Sub(old(c08Tot(k0)), old(c08InKind(val, params.KindValidator)))
@@ -445,6 +433,7 @@ package state
 //@ ensures [absent-noop]   !result ==> c08Tot(k0) == old(c08Tot(k0)) && c08Tot(k1) == old(c08Tot(k1)) && c08Tot(k2) == old(c08Tot(k2)) &&
 //@                                     c08Tot(r1) == old(c08Tot(r1)) && c08Tot(r2) == old(c08Tot(r2)) && c08Tot(r3) == old(c08Tot(r3))
 //@ ensures [journalled] result ==> len(st.validatorJournal.entries) == old(len(st.validatorJournal.entries)) + 1
+//@ ensures [other-bigs-kept] c08BigsKept()
 
 // The trie behind `valTrie` is an interface outside the heap model (C13): trusted frame — only the error memo changes here.
 //@ func (*StateDB).deleteStakingData props C08
@@ -465,13 +454,10 @@ package state
 //@ let r2 = c08R(c08Stat(st), 2)
 //@ let r3 = c08R(c08Stat(st), 3)
 //@ modifies st.validatorsStatModified, st.dbErr, val.deleted, val.consAddr, st.validatorIndex.data, mapof(st.validatorIndex.data.dirty),
-//@     big(k0.onlineStake), big(k0.onlineToken), k0.onlineCount, big(k0.offlineStake), big(k0.offlineToken), k0.offlineCount,
-//@     big(k1.onlineStake), big(k1.onlineToken), k1.onlineCount, big(k1.offlineStake), big(k1.offlineToken), k1.offlineCount,
-//@     big(k2.onlineStake), big(k2.onlineToken), k2.onlineCount, big(k2.offlineStake), big(k2.offlineToken), k2.offlineCount,
-//@     big(r1.onlineStake), big(r1.onlineToken), r1.onlineCount, big(r1.offlineStake), big(r1.offlineToken), r1.offlineCount,
-//@     big(r2.onlineStake), big(r2.onlineToken), r2.onlineCount, big(r2.offlineStake), big(r2.offlineToken), r2.offlineCount,
-//@     big(r3.onlineStake), big(r3.onlineToken), r3.onlineCount, big(r3.offlineStake), big(r3.offlineToken), r3.offlineCount
+//@     all(big), k0.onlineCount, k0.offlineCount, k1.onlineCount, k1.offlineCount, k2.onlineCount, k2.offlineCount,
+//@     r1.onlineCount, r1.offlineCount, r2.onlineCount, r2.offlineCount, r3.onlineCount, r3.offlineCount
 //@ ensures [marked-deleted] val.deleted
+//@ ensures [other-bigs-kept] c08BigsKept()
 //@ ensures [unindexed] !c08Indexed(st.validatorIndex, c08AddrOf(val))
 //@ ensures [other-index] st.validatorIndex.data.dirty == old(st.validatorIndex.data.dirty) &&
 //@             mapdom(st.validatorIndex.data.dirty) == store(old(mapdom(st.validatorIndex.data.dirty)), box(c08AddrOf(val)), false)
@@ -500,18 +486,15 @@ package state
 //@ let r2 = c08R(c08Stat(s), 2)
 //@ let r3 = c08R(c08Stat(s), 3)
 //@ modifies s.validatorsStatModified, s.validatorObjects, mapof(s.validatorObjects.dirty), s.validatorIndex.data, mapof(s.validatorIndex.data.dirty),
-//@     big(k0.onlineStake), big(k0.onlineToken), k0.onlineCount, big(k0.offlineStake), big(k0.offlineToken), k0.offlineCount,
-//@     big(k1.onlineStake), big(k1.onlineToken), k1.onlineCount, big(k1.offlineStake), big(k1.offlineToken), k1.offlineCount,
-//@     big(k2.onlineStake), big(k2.onlineToken), k2.onlineCount, big(k2.offlineStake), big(k2.offlineToken), k2.offlineCount,
-//@     big(r1.onlineStake), big(r1.onlineToken), r1.onlineCount, big(r1.offlineStake), big(r1.offlineToken), r1.offlineCount,
-//@     big(r2.onlineStake), big(r2.onlineToken), r2.onlineCount, big(r2.offlineStake), big(r2.offlineToken), r2.offlineCount,
-//@     big(r3.onlineStake), big(r3.onlineToken), r3.onlineCount, big(r3.offlineStake), big(r3.offlineToken), r3.offlineCount
+//@     all(big), k0.onlineCount, k0.offlineCount, k1.onlineCount, k1.offlineCount, k2.onlineCount, k2.offlineCount,
+//@     r1.onlineCount, r1.offlineCount, r2.onlineCount, r2.offlineCount, r3.onlineCount, r3.offlineCount
 //@ ensures [kind-all]      c08Tot(k0) == c08Sub(old(c08Tot(k0)), old(c08InKind(val, params.KindValidator)))
 //@ ensures [kind-chamber]  c08Tot(k1) == c08Sub(old(c08Tot(k1)), old(c08InKind(val, params.KindChamber)))
 //@ ensures [kind-house]    c08Tot(k2) == c08Sub(old(c08Tot(k2)), old(c08InKind(val, params.KindHouse)))
 //@ ensures [role-chancellor] c08Tot(r1) == c08Sub(old(c08Tot(r1)), old(c08InRole(val, params.RoleChancellor)))
 //@ ensures [role-senator]  c08Tot(r2) == c08Sub(old(c08Tot(r2)), old(c08InRole(val, params.RoleSenator)))
 //@ ensures [role-house]    c08Tot(r3) == c08Sub(old(c08Tot(r3)), old(c08InRole(val, params.RoleHouse)))
+//@ ensures [other-bigs-kept] c08BigsKept()
 //@ ensures [object-gone]   !c08HasObj(s, *ch.address) && s.validatorObjects.dirty == old(s.validatorObjects.dirty) &&
 //@             mapdom(s.validatorObjects.dirty) == store(old(mapdom(s.validatorObjects.dirty)), box(*ch.address), false)
 //@ ensures [unindexed]     !c08Indexed(s.validatorIndex, *ch.address) && s.validatorIndex.data.dirty == old(s.validatorIndex.data.dirty) &&
@@ -531,12 +514,8 @@ package state
 //@ let r3 = c08R(c08Stat(s), 3)
 //@ modifies s.validatorsStatModified, oldVal.consAddr,
 //@     s.validatorObjects, mapof(s.validatorObjects.dirty), s.validatorIndex.data, mapof(s.validatorIndex.data.dirty),
-//@     big(k0.onlineStake), big(k0.onlineToken), k0.onlineCount, big(k0.offlineStake), big(k0.offlineToken), k0.offlineCount,
-//@     big(k1.onlineStake), big(k1.onlineToken), k1.onlineCount, big(k1.offlineStake), big(k1.offlineToken), k1.offlineCount,
-//@     big(k2.onlineStake), big(k2.onlineToken), k2.onlineCount, big(k2.offlineStake), big(k2.offlineToken), k2.offlineCount,
-//@     big(r1.onlineStake), big(r1.onlineToken), r1.onlineCount, big(r1.offlineStake), big(r1.offlineToken), r1.offlineCount,
-//@     big(r2.onlineStake), big(r2.onlineToken), r2.onlineCount, big(r2.offlineStake), big(r2.offlineToken), r2.offlineCount,
-//@     big(r3.onlineStake), big(r3.onlineToken), r3.onlineCount, big(r3.offlineStake), big(r3.offlineToken), r3.offlineCount
+//@     all(big), k0.onlineCount, k0.offlineCount, k1.onlineCount, k1.offlineCount, k2.onlineCount, k2.offlineCount,
+//@     r1.onlineCount, r1.offlineCount, r2.onlineCount, r2.offlineCount, r3.onlineCount, r3.offlineCount
 //@ ensures [kind-all]      c08Tot(k0) == c08Add(c08Sub(old(c08Tot(k0)), old(c08InKind(newVal, params.KindValidator))), old(c08InKind(oldVal, params.KindValidator)))
 //@ ensures [kind-chamber]  c08Tot(k1) == c08Add(c08Sub(old(c08Tot(k1)), old(c08InKind(newVal, params.KindChamber))), old(c08InKind(oldVal, params.KindChamber)))
 //@ ensures [kind-house]    c08Tot(k2) == c08Add(c08Sub(old(c08Tot(k2)), old(c08InKind(newVal, params.KindHouse))), old(c08InKind(oldVal, params.KindHouse)))
@@ -544,6 +523,7 @@ package state
 //@ ensures [role-senator]  c08Tot(r2) == c08Add(c08Sub(old(c08Tot(r2)), old(c08InRole(newVal, params.RoleSenator))), old(c08InRole(oldVal, params.RoleSenator)))
 //@ ensures [role-house]    c08Tot(r3) == c08Add(c08Sub(old(c08Tot(r3)), old(c08InRole(newVal, params.RoleHouse))), old(c08InRole(oldVal, params.RoleHouse)))
 //@ ensures [restored]      c08HasObj(s, c08AddrOf(oldVal)) && c08Obj(s, c08AddrOf(oldVal)) == oldVal && c08Indexed(s.validatorIndex, c08AddrOf(oldVal))
+//@ ensures [other-bigs-kept] c08BigsKept()
 
 // revert of a removal: the record exists again (not marked deleted) and is counted again.
 // The code only re-stores the pointer: `deleted` stays set and the statistics stay reduced — DESIGN §9 / findings_proposed/C08.json
@@ -560,3 +540,128 @@ package state
 //@ // PENDING-FINDING: (proposed_fixes/C08/delete_revert.diff) the restored record must exist again and be counted again:
 //@ // ensures [exists-again] !oldVal.deleted
 //@ // ensures [kind-all] c08Tot(k0) == c08Add(old(c08Tot(k0)), old(c08Contrib(oldVal)))
+
+// ---------------------------------------------------------------------------------------------------------------
+// Clause 2 of C08 (totals) and clause 5 (the journal's old record is not mutated): the delegation list of a record.
+// Lists are described over ABSOLUTE indices of the backing array (trigger-friendly, engine_requests/C10.md R2).
+//@ spec func c08AsDlg(p: *DelegationFrom) *DelegationFrom = p
+// The order of the list: addresses as 160-bit big-endian numbers (what common.Address.Big() computes): an injective numbering.
+//@ spec func c08AddrNum(a: common.Address) int
+// (injectivity is used only inside the trusted contract of Search, for the entries of the searched list: a global axiom over all
+//  pairs of addresses made the vacuity checks time out)
+//@ spec func c08DlgNum(s: DelegationFroms, a: int) int = c08AddrNum(c08AsDlg(elems(s)[a]).Delegator)
+// "必须是排好序的": strictly increasing, hence duplicate-free; every entry exists with both amounts.
+//@ spec func c08Sorted(s: DelegationFroms) bool =
+//@     forall a: int, b: int :: { elems(s)[a], elems(s)[b] } off(s) <= a && a < b && b < off(s) + len(s) ==> c08DlgNum(s, a) < c08DlgNum(s, b)
+//@ spec func c08DlgsOK(s: DelegationFroms) bool =
+//@     forall a: int :: { elems(s)[a] } off(s) <= a && a < off(s) + len(s) ==>
+//@         c08AsDlg(elems(s)[a]) != nil && allocated(c08AsDlg(elems(s)[a])) && c08AsDlg(elems(s)[a]).Stake != nil && c08AsDlg(elems(s)[a]).Token != nil
+// p is the lower bound of address x in the sorted list s.
+//@ spec func c08IsLB(s: DelegationFroms, x: common.Address, p: int) bool =
+//@     0 <= p && p <= len(s) &&
+//@     (forall a: int :: { elems(s)[a] } off(s) <= a && a < off(s) + p ==> c08DlgNum(s, a) < c08AddrNum(x)) &&
+//@     (forall a: int :: { elems(s)[a] } off(s) + p <= a && a < off(s) + len(s) ==> c08DlgNum(s, a) >= c08AddrNum(x))
+// The position Search returns (a function of the list content and the address).
+//@ spec func c08Pos(arr: seq[int], o: int, n: int, x: common.Address) int
+
+// Search = sort.Search with the closure `d[i].Delegator.Big().Cmp(a.Big()) >= 0`. The closure allocates (Address.Big), so the engine
+// cannot inline it as a pure predicate: TRUSTED instance of the sort.Search contract (monotone predicate on a sorted list).
+//@ func (DelegationFroms).Search props C08
+//@ trusted
+//@ requires c08DlgsOK(d)
+//@ pure
+//@ ensures result == c08Pos(elems(d), off(d), len(d), a) && 0 <= result && result <= len(d)
+//@ ensures c08Sorted(d) ==> c08IsLB(d, a, result)
+//@ ensures forall k: int :: { elems(d)[k] } off(d) <= k && k < off(d) + len(d) && c08DlgNum(d, k) == c08AddrNum(a) ==> c08AsDlg(elems(d)[k]).Delegator == a
+
+//@ func (*DelegationFrom).Empty props C08
+//@ panics none
+//@ requires d != nil ==> d.Stake != nil && d.Token != nil
+//@ pure
+//@ ensures [empty] result <==> (d == nil || (big(d.Stake) == 0 && big(d.Token) == 0))
+
+// Is x's delegation in the list (at its lower bound p)?
+//@ spec func c08At(s: DelegationFroms, p: int, x: common.Address) bool = p < len(s) && c08AsDlg(elems(s)[off(s) + p]).Delegator == x
+
+// UpdateDelegationFrom(d): the sorted-list edit. p = lower bound of d.Delegator in the old list.
+//   absent & empty -> Noop, nothing changes          present & non-empty -> Update: cell p becomes d
+//   absent & non-empty -> Create: d inserted at p    present & empty     -> Delete: cell p removed
+//@ func (*Validator).UpdateDelegationFrom props C08
+//@ panics none
+//@ overflow checked
+//@ requires v != nil && d != nil && d.Stake != nil && d.Token != nil && c08DlgsOK(v.Delegations)
+//@ let s0 = v.Delegations
+//@ let p = c08Pos(elems(v.Delegations), off(v.Delegations), len(v.Delegations), d.Delegator)
+//@ let present = c08At(v.Delegations, c08Pos(elems(v.Delegations), off(v.Delegations), len(v.Delegations), d.Delegator), d.Delegator)
+//@ let empty = big(d.Stake) == 0 && big(d.Token) == 0
+//@ modifies v.Delegations, elems(v.Delegations)
+//@ ensures [flag] (flag == params.Noop <==> (!present && empty)) && (flag == params.Create <==> (!present && !empty)) &&
+//@                (flag == params.Update <==> (present && !empty)) && (flag == params.Delete <==> (present && empty))
+//@ ensures [noop]   flag == params.Noop ==> v.Delegations == s0 && elems(v.Delegations) == old(elems(s0))
+//@ ensures [update] flag == params.Update ==> v.Delegations == s0 && elems(v.Delegations) == store(old(elems(s0)), off(s0) + p, d)
+//@ ensures [create-len] flag == params.Create ==> len(v.Delegations) == len(s0) + 1
+//@ ensures [create-at]  flag == params.Create ==> c08AsDlg(elems(v.Delegations)[off(v.Delegations) + p]) == d
+//@ ensures [create-before] flag == params.Create ==> forall a: int :: { elems(v.Delegations)[a] } off(v.Delegations) <= a && a < off(v.Delegations) + p ==>
+//@                elems(v.Delegations)[a] == old(elems(s0))[a - off(v.Delegations) + off(s0)]
+//@ ensures [create-after]  flag == params.Create ==> forall a: int :: { elems(v.Delegations)[a] } off(v.Delegations) + p < a && a <= off(v.Delegations) + len(s0) ==>
+//@                elems(v.Delegations)[a] == old(elems(s0))[a - off(v.Delegations) + off(s0) - 1]
+//@ ensures [delete-len] flag == params.Delete ==> len(v.Delegations) == len(s0) - 1 && base(v.Delegations) == base(s0) && off(v.Delegations) == off(s0)
+//@ ensures [delete-before] flag == params.Delete ==> forall a: int :: { elems(v.Delegations)[a] } off(s0) <= a && a < off(s0) + p ==>
+//@                elems(v.Delegations)[a] == old(elems(s0))[a]
+//@ ensures [delete-after]  flag == params.Delete ==> forall a: int :: { elems(v.Delegations)[a] } off(s0) + p <= a && a < off(s0) + len(s0) - 1 ==>
+//@                elems(v.Delegations)[a] == old(elems(s0))[a + 1]
+//@ ensures [sorted] old(c08Sorted(s0)) ==> c08Sorted(v.Delegations)
+//@ ensures [entries-ok] c08DlgsOK(v.Delegations)
+
+// GetDelegationFrom(d): a fresh copy of d's entry, or nil when d does not delegate to this validator.
+//@ func (*Validator).GetDelegationFrom props C08
+//@ panics none
+//@ requires v != nil && c08Sorted(v.Delegations) && c08DlgsOK(v.Delegations)
+//@ let p = c08Pos(elems(v.Delegations), off(v.Delegations), len(v.Delegations), d)
+//@ let present = c08At(v.Delegations, c08Pos(elems(v.Delegations), off(v.Delegations), len(v.Delegations), d), d)
+//@ let e = c08AsDlg(elems(v.Delegations)[off(v.Delegations) + c08Pos(elems(v.Delegations), off(v.Delegations), len(v.Delegations), d)])
+//@ modifies nothing
+//@ ensures [found]  present ==> result != nil && fresh(result) && fresh(result.Stake) && fresh(result.Token) && result.Stake != result.Token &&
+//@     result.Delegator == d && big(result.Stake) == big(e.Stake) && big(result.Token) == big(e.Token)
+//@ ensures [absent] !present ==> result == nil
+//@ ensures [absent-means-no-entry] !present ==> forall a: int :: { elems(v.Delegations)[a] } off(v.Delegations) <= a && a < off(v.Delegations) + len(v.Delegations) ==>
+//@     c08AsDlg(elems(v.Delegations)[a]).Delegator != d
+
+// The delegator's account side (state objects, account journal, account trie) — clause 4 territory; here only its frame:
+// it touches nothing of the validator side. Trusted (getStateObject reads the account trie and decodes RLP).
+//@ func (*StateDB).UpdateDelegator props C08
+//@ trusted
+//@ requires st != nil
+//@ modifies st.dbErr, mapof(st.stateObjects), all(stateObject.delegations), all(stateObject.dirtyDlgs), all(stateObject.data),
+//@     st.journal.entries, elems(st.journal.entries), mapof(st.journal.dirties)        // (address lists / hashes it builds are fresh arrays)
+
+// UpdateDelegation(d, val, tokenChanged): the inductive step of "Token == SelfToken + Σ delegations.Token, Stake == SelfStake + Σ delegations.Stake,
+// each delegation's Stake == floor(Token / unit)": d's entry moves by tokenChanged, its stake is recomputed, the record's totals move by
+// exactly the same two amounts, the self amounts stay, and the list is edited at d's entry only (UpdateDelegationFrom).
+// The summation over the list is not mechanised (no comprehension over heap-stored lists); see claims/C08.json.
+//@ func (*StateDB).UpdateDelegation props C08
+//@ panics none
+//@ requires c08StateWF(st) && st.journal != nil && val != nil && c08RecOK(st, val) && c08Counted(c08Stat(st), val) && c10ValAmountsOK(val)
+//@ requires c08Sorted(val.Delegations) && c08DlgsOK(val.Delegations) && params.StakeUint != nil && big(params.StakeUint) > 0
+//@ let s0 = val.Delegations
+//@ let p = c08Pos(elems(val.Delegations), off(val.Delegations), len(val.Delegations), d)
+//@ let present = c08At(val.Delegations, c08Pos(elems(val.Delegations), off(val.Delegations), len(val.Delegations), d), d)
+//@ let oldTok = if c08At(val.Delegations, c08Pos(elems(val.Delegations), off(val.Delegations), len(val.Delegations), d), d) then big(c08AsDlg(elems(val.Delegations)[off(val.Delegations) + c08Pos(elems(val.Delegations), off(val.Delegations), len(val.Delegations), d)]).Token) else 0
+//@ let oldStk = if c08At(val.Delegations, c08Pos(elems(val.Delegations), off(val.Delegations), len(val.Delegations), d), d) then big(c08AsDlg(elems(val.Delegations)[off(val.Delegations) + c08Pos(elems(val.Delegations), off(val.Delegations), len(val.Delegations), d)]).Stake) else 0
+//@ let acts = tokenChanged != nil && big(tokenChanged) != 0 && (c08At(val.Delegations, c08Pos(elems(val.Delegations), off(val.Delegations), len(val.Delegations), d), d) || big(tokenChanged) > 0)
+//@ modifies all
+//@ ensures [noop] !acts ==> result0 == val && result1 == nil && big(result2) == 0 && result3 == params.Noop
+//@ ensures [delegation-token] acts ==> result1 != nil && result1.Delegator == d && big(result1.Token) == oldTok + old(big(tokenChanged))
+//@ ensures [delegation-stake] acts ==> big(result1.Stake) == ediv(big(result1.Token), old(big(params.StakeUint)))
+//@ ensures [stake-delta]      acts ==> big(result2) == big(result1.Stake) - oldStk
+//@ ensures [total-token]      acts ==> result0 != nil && fresh(result0) && big(result0.Token) == old(big(val.Token)) + old(big(tokenChanged))
+//@ ensures [total-stake]      acts ==> big(result0.Stake) == old(big(val.Stake)) + big(result2)
+//@ ensures [self-unchanged]   acts ==> big(result0.SelfToken) == old(big(val.SelfToken)) && big(result0.SelfStake) == old(big(val.SelfStake))
+//@ // NOT-DECIDED: relating the flag to `present` needs "Search finds the same position in the copied list", i.e. extensionality of the
+//@ // (uninterpreted) search position c08Pos over list contents across PartialCopy:
+//@ // ensures [flag] acts ==> (result3 == params.Create <==> !present) && (result3 == params.Delete <==> (present && big(result1.Token) == 0 && big(result1.Stake) == 0)) && result3 != params.Noop
+//@ ensures [stored] acts ==> c08HasObj(st, c08AddrOf(val)) && c08Obj(st, c08AddrOf(val)) == result0
+//@ ensures [list-sorted] acts ==> c08Sorted(result0.Delegations) && c08DlgsOK(result0.Delegations)
+//@ // PENDING-FINDING: (proposed_fixes/C08/partialcopy_delegations.diff; DESIGN §9 C08/C09) clause 5 — `val` is what the journal keeps as the old value
+//@ // (validatorUpdateChange.oldVal); its delegation list must not change. UpdateDelegationFrom(newVal) writes the array both records share:
+//@ // ensures [old-record-list-intact] elems(val.Delegations) == old(elems(val.Delegations))
